@@ -471,11 +471,12 @@ Definition bodies_ok (B : list defbody) : bool := forallb body_ok B.
 (** the two type names written as plain chunks inside [TypedDocumentNode<…>] are not, as a
     whole chunk, one of the three keyword chunks (a type-name suffix such as ["export { "]
     with an empty operation name would be; see design/C14.md) *)
+Definition def_names_ok_with (t : type_opts) (o : base_opts) (name : option (str * pos)) : bool :=
+  negb (is_kw (W (operation_name o name ++ operation_result_type_suffix t)))
+  && negb (is_kw (W (operation_name o name ++ variables_type_suffix t))).
 Definition def_names_ok (t : type_opts) (x : def) : bool :=
   match x with
-  | OpDef _ name _ _ =>
-      negb (is_kw (W (operation_name (t_base t) name ++ operation_result_type_suffix t)))
-      && negb (is_kw (W (operation_name (t_base t) name ++ variables_type_suffix t)))
+  | OpDef _ name _ _ => def_names_ok_with t (t_base t) name
   | FragDef _ _ => true
   end.
 Definition names_ok (t : type_opts) (d : doc) : bool := forallb (def_names_ok t) (defs d).
